@@ -563,7 +563,7 @@ reg_node("C07", "Theorems (node level): non-leaders reject definitively and chan
          "abstract protocol with membership changes, crashes, snapshots and truncated requests): an update submitted once occurs at most once in any "
          "node's log, at the same index and term in every log that holds it, and never if it was not submitted (cfg_client_entry_*); together with "
          "C02/C03 (it stays once committed; state machines agree) this gives exactly-once for completed and at-most-once for ambiguous updates.",
-         ["batching by runBatch is a schedule choice (any batching is a list handed to storeEntry)"], extra_props=["C07_abs.v"])
+         ["batching by runBatch is a schedule choice (any batching is a list handed to storeEntry)"], extra_props=["C07_abs.v", "CfgTie.v"])
 reg_node("C09", "Theorems (node level): apply is contiguous; a snapshot never exceeds the commit index; compaction removes only a prefix at or below "
          "the snapshot; on a leader it keeps the entry at every follower's match index and hands replications a view that starts inside the log; "
          "the request writer yields log entries or asks for a snapshot; installation resets log and state machine position together. PARTIAL: the "
